@@ -17,16 +17,38 @@
 use std::cell::RefCell;
 use std::collections::{HashMap, HashSet};
 use std::hash::{Hash, Hasher};
-use std::rc::Rc;
+use std::rc::{Rc, Weak};
 
 /// Pickle virtual machine (PVM) stack.
 ///
 /// The stack holds objects during pickle generation, mirroring the behavior
 /// of Python's pickle unpickler.
-#[derive(Debug, Default, Clone)]
+#[derive(Debug, Default)]
 pub struct Stack {
     /// Internal stack storage
     pub inner: Vec<StackObjectRef>,
+
+    /// Weak handles to every cell this stack created. Lists, dicts, sets and instances can be
+    /// made to contain themselves (DUP followed by APPEND, SETITEM, BUILD, ...), and reference
+    /// counting alone never frees such a cycle, so `reset()` and `drop` empty the cells that
+    /// are still alive.
+    cells: Vec<Weak<RefCell<StackObject>>>,
+}
+
+impl Clone for Stack {
+    /// A clone shares the cells of the original but is not responsible for releasing them.
+    fn clone(&self) -> Self {
+        Self {
+            inner: self.inner.clone(),
+            cells: Vec::new(),
+        }
+    }
+}
+
+impl Drop for Stack {
+    fn drop(&mut self) {
+        self.release_cells();
+    }
 }
 
 impl Stack {
@@ -37,12 +59,27 @@ impl Stack {
 
     /// Clear all items from the stack.
     pub fn reset(&mut self) {
+        self.release_cells();
         self.inner.clear();
     }
 
     /// Push a value onto the stack.
     pub fn push(&mut self, value: StackObject) {
-        self.inner.push(StackObjectRef::new(value));
+        let cell = StackObjectRef::new(value);
+        self.cells.push(Rc::downgrade(&cell.0));
+        self.inner.push(cell);
+    }
+
+    /// Empty every cell created by this stack that is still alive, which breaks any
+    /// reference cycle between them.
+    fn release_cells(&mut self) {
+        for weak in self.cells.drain(..) {
+            if let Some(cell) = weak.upgrade() {
+                if let Ok(mut obj) = cell.try_borrow_mut() {
+                    *obj = StackObject::None;
+                }
+            }
+        }
     }
 
     /// Pop a value from the stack.
